@@ -303,9 +303,13 @@ def rng_perturb(rng, ctx):
 
 
 def set_backend(name):
+    """'numpy' | 'torch' | 'numpy:float32' | 'torch:float32' (run configuration: numeric backend x dtype)."""
     from pgmpy import config
 
-    if name == "torch":
-        config.set_backend("torch", device="cpu")
+    backend, _, dtype = name.partition(":")
+    if backend == "torch":
+        import torch
+
+        config.set_backend("torch", device="cpu", dtype=getattr(torch, dtype) if dtype else None)
     else:
-        config.set_backend("numpy")
+        config.set_backend("numpy", dtype=dtype or None)
